@@ -253,7 +253,13 @@ func (vc *VC) coerce(x Term, from, to types.Type) Term {
 		return vc.box(x, from)
 	}
 	if fs == "Val" {
-		return sx(vc.unboxFn(to), x)
+		u := sx(vc.unboxFn(to), x)
+		if isPointerLike(to) && isTypeParam(from) {
+			// a generic value instantiated with pointer type `to`: valid <=> the pointer is non-nil
+			vc.sc.Axiom(Eq(sx("vnn", x), Not(Eq(u, "nilref"))))
+			vc.sc.Axiom(Implies(Not(Eq(u, "nilref")), Not(Eq(x, "nilval"))))
+		}
+		return u
 	}
 	return x
 }
